@@ -22,6 +22,7 @@ import (
 	"sort"
 	"strings"
 	"testing"
+	"unicode/utf8"
 
 	"github.com/fatih/color"
 )
@@ -193,7 +194,11 @@ func c16MsgClass(m string) string {
 
 // c16CheckRender lints src in every mode and checks that the output parses back to the API result.
 func c16CheckRender(r *vReport, what, src string) {
-	replay := map[string]any{"src": src, "what": what}
+	c16CheckRenderAt(r, what, "test.yaml", src, nil, map[string]any{"src": src, "what": what})
+}
+
+// c16CheckRenderAt lints src as the file at path (inside proj when given) in every mode.
+func c16CheckRenderAt(r *vReport, what, path, src string, proj *Project, replay map[string]any) {
 	var base []*Error
 	for mi, m := range c16Modes {
 		var out bytes.Buffer
@@ -212,7 +217,7 @@ func c16CheckRender(r *vReport, what, src string) {
 					r.Violation("render-panic:"+m.name, fmt.Sprintf("%s: rendering in mode %s panicked: %v\n%s", what, m.name, p, vTrunc(vStack(), 800)), replay)
 				}
 			}()
-			errs, lerr = l.Lint("test.yaml", []byte(src), nil)
+			errs, lerr = l.Lint(path, []byte(src), proj)
 		}()
 		color.NoColor = true
 		r.Evaluations++
@@ -261,10 +266,10 @@ func c16CheckRender(r *vReport, what, src string) {
 				li++
 				// optional snippet block: "  |", "N | src", "  | ^~~"
 				if li+2 < len(lines) && strings.HasSuffix(strings.TrimRight(lines[li], " "), "|") && strings.TrimLeft(lines[li], " ") == "|" {
-					srcLines := strings.Split(src, "\n")
+					srcLines := c16Lines(src)
 					want := ""
 					if e.Line >= 1 && e.Line <= len(srcLines) {
-						want = strings.TrimSuffix(srcLines[e.Line-1], "\r")
+						want = srcLines[e.Line-1]
 					}
 					got := lines[li+1]
 					pfx := fmt.Sprintf("%d | ", e.Line)
@@ -369,7 +374,7 @@ func TestVerifC16(t *testing.T) {
 	r.Bounds["snippet_source_length"] = maxLen
 	r.Bounds["payloads"] = len(c16Payloads)
 	r.Bounds["modes"] = len(c16Modes)
-	r.Extra["rule"] = "(a) every value and key position of 4 clean seeds + 1 noisy seed (type-echoing diagnostics) x 12 hostile payloads in double-quoted YAML; each diagnostic list rendered in 5 modes (default, -oneline, -oneline with colour, {{json .}}, custom template) and parsed back with the shipped problem-matcher regexp / JSON; (b) PrettyPrint and GetTemplateFields over all sources <= L over {a, space, tab, LF, é, あ} x line -1..4 x column -1..7 against a reference. class = (kind, message skeleton) | snippet outcome; non-trivial = at least one diagnostic"
+	r.Extra["rule"] = "(a) every value and key position of 4 clean seeds + 1 noisy seed (type-echoing diagnostics) x 12 hostile payloads in double-quoted YAML; each diagnostic list rendered in 5 modes (default, -oneline, -oneline with colour, {{json .}}, custom template) and parsed back with the shipped problem-matcher regexp / JSON; the same payloads at every value and key of a local action metadata file and of a local reusable workflow file (as string, sequence, mapping; one position and every pair of positions), rendering the workflow that uses them; (b) PrettyPrint and GetTemplateFields over all sources <= L over {a, space, tab, LF, é, あ, CR, U+2028} (lines as the YAML parser counts them) x line -1..4 x column -1..7 against a reference. class = (kind, message skeleton) | snippet outcome; non-trivial = at least one diagnostic"
 	r.Extra["assumptions"] = []string{"the matcher's JavaScript regexp is translated to Go regexp syntax with '.' narrowed to JavaScript's meaning (no LF, CR, U+2028, U+2029)", "caret placement is not compared when the prefix contains a tab or the column splits a multi-byte character"}
 
 	if raw := vReplayInput(); raw != nil {
@@ -384,6 +389,17 @@ func TestVerifC16(t *testing.T) {
 		if rp.Snippet != nil {
 			c16Snippet(r, rp.Snippet.Src, rp.Snippet.Line, rp.Snippet.Col)
 			c16Snippet(r, rp.Snippet.Src, rp.Snippet.Line, rp.Snippet.Col)
+			return
+		}
+		if strings.HasPrefix(rp.What, "caret ") {
+			c16Caret(r)
+			c16Caret(r)
+			return
+		}
+		if strings.HasPrefix(rp.What, "project ") {
+			var n int64
+			c16Project(t, r, &n, rp.What)
+			c16Project(t, r, &n, rp.What)
 			return
 		}
 		if strings.HasPrefix(rp.What, "LintFiles") {
@@ -427,7 +443,7 @@ func TestVerifC16(t *testing.T) {
 				if len(core) >= 3 && core[0] == 'a' && core[len(core)-1] == 'b' {
 					core = core[1 : len(core)-1]
 				}
-				for _, w := range []string{"[a-%s]", "[%s-a]", "[%s]", "x%s+", "\\\\%s", "own/rep@%s", "docker://%s", "./%s", "@%s", "%s * * * *", "* * %s * *", "%s: x", "x, %s"} {
+				for _, w := range []string{"[a-%s]", "[%s-a]", "[%s]", "x%s+", "\\\\%s", "own/rep@%s", "docker://%s", "docker://%%zz:%s", "docker://img:%s", "./%s", "@%s", "%s * * * *", "* * %s * *", "%s: x", "x, %s"} {
 					variants = append(variants, `"`+fmt.Sprintf(w, core)+`"`)
 				}
 				if !p.IsKey {
@@ -498,8 +514,16 @@ func TestVerifC16(t *testing.T) {
 		c16MultiFile(t, r)
 	}
 
+	// ---- (a4) second input channel: local action metadata and local reusable workflow files
+	c16Project(t, r, &idx, "")
+
+	// ---- (a5) caret under the diagnosed token, end to end
+	if r.Shard == 0 {
+		c16Caret(r)
+	}
+
 	// ---- (b) snippet renderer
-	alpha := []string{"a", " ", "\t", "\n", "é", "あ"}
+	alpha := []string{"a", " ", "\t", "\n", "é", "あ", "\r", "\u2028"}
 	var gen func(prefix string, n int)
 	gen = func(prefix string, n int) {
 		idx++
@@ -548,6 +572,39 @@ func c16Width(s string) (int, bool) {
 	return w, true
 }
 
+// c16Lines splits a source into lines the way positions count them: the YAML parser, which
+// assigns the line numbers, breaks lines at CRLF, LF, CR, NEL, LS and PS. A final break does not
+// open a further line.
+func c16Lines(src string) []string {
+	var out []string
+	start := 0
+	rs := []rune(src)
+	i := 0
+	for i < len(rs) {
+		n := 0
+		switch rs[i] {
+		case '\r':
+			n = 1
+			if i+1 < len(rs) && rs[i+1] == '\n' {
+				n = 2
+			}
+		case '\n', 0x85, 0x2028, 0x2029:
+			n = 1
+		}
+		if n > 0 {
+			out = append(out, string(rs[start:i]))
+			i += n
+			start = i
+			continue
+		}
+		i++
+	}
+	if start < len(rs) {
+		out = append(out, string(rs[start:]))
+	}
+	return out
+}
+
 // c16Snippet checks PrettyPrint / GetTemplateFields on one (source, line, column) triple.
 func c16Snippet(r *vReport, src string, line, col int) {
 	e := &Error{Message: "m", Filepath: "f.yaml", Line: line, Column: col, Kind: "k"}
@@ -573,11 +630,9 @@ func c16Snippet(r *vReport, src string, line, col int) {
 	if lines[0] != fmt.Sprintf("f.yaml:%d:%d: m [k]", line, col) {
 		r.Violation("snippet-header", fmt.Sprintf("source %q at %d:%d: header is %q", src, line, col, lines[0]), replay)
 	}
-	// reference: the referenced line (split at LF), shown iff it exists and the column is within it
-	srcLines := strings.Split(src, "\n")
-	if strings.HasSuffix(src, "\n") {
-		srcLines = srcLines[:len(srcLines)-1]
-	}
+	// reference: the referenced line (lines as the YAML parser counts them), shown iff it exists and
+	// the column is within it
+	srcLines := c16Lines(src)
 	shown := len(lines) > 2
 	if line < 1 || line > len(srcLines) || src == "" {
 		if shown {
@@ -586,7 +641,7 @@ func c16Snippet(r *vReport, src string, line, col int) {
 		r.Class("snippet:none", false)
 		return
 	}
-	ref := strings.TrimSuffix(srcLines[line-1], "\r")
+	ref := srcLines[line-1]
 	if !shown {
 		r.Class("snippet:not-shown", true)
 		return
@@ -608,6 +663,152 @@ func c16Snippet(r *vReport, src string, line, col int) {
 		}
 	}
 	r.Class("snippet:shown", true)
+}
+
+// c16ProjFiles: a repository whose workflow uses a local action and a local reusable workflow; the
+// payloads go into those two files (second input channel: their content is echoed by the
+// diagnostics of the workflow that uses them, also through third-party YAML error texts).
+var c16ProjFiles = map[string]string{
+	".git/HEAD":                    "ref: refs/heads/main\n",
+	"act/action.yml":               "name: act\ndescription: d\nauthor: me\ninputs:\n  tok:\n    description: t\n    required: true\n    default: x\noutputs:\n  o:\n    description: o\n    value: v\nruns:\n  using: composite\n  steps:\n    - run: echo\n      shell: bash\n",
+	".github/workflows/callee.yml": "on:\n  workflow_call:\n    inputs:\n      cin:\n        type: string\n        required: true\n        default: d\n    secrets:\n      csec:\n        required: true\n    outputs:\n      cout:\n        description: d\n        value: v\njobs:\n  j:\n    runs-on: ubuntu-latest\n    steps:\n      - run: echo\n",
+	".github/workflows/main.yml":   "on: push\njobs:\n  a:\n    runs-on: ubuntu-latest\n    steps:\n      - id: s\n        uses: ./act\n        with:\n          tok: x\n          nosuchinput: y\n      - run: echo ${{ steps.s.outputs.nosuchoutput }}\n  c:\n    uses: ./.github/workflows/callee.yml\n    with:\n      cin: x\n      nosuchcin: y\n    secrets:\n      csec: x\n      nosuchsecret: y\n  d:\n    needs: [c]\n    runs-on: ubuntu-latest\n    steps:\n      - run: echo ${{ needs.c.outputs.nosuchout }}\n",
+}
+
+// c16Project: every scalar and key of the two metadata files replaced by every payload, as a
+// string and as a value of the wrong type (sequence, mapping), at one position and at every pair
+// of positions (several type errors in one file); the workflow that uses them is rendered in all modes.
+func c16Project(t *testing.T, r *vReport, idx *int64, only string) {
+	root := vTempDir(t, "c16p-")
+	vWriteFiles(t, root, c16ProjFiles)
+	mainPath := filepath.Join(root, ".github/workflows/main.yml")
+	mainSrc := c16ProjFiles[".github/workflows/main.yml"]
+	for _, f := range []string{"act/action.yml", ".github/workflows/callee.yml"} {
+		cat, err := vBuildCatalogue("c16proj:"+f, c16ProjFiles[f])
+		if err != nil {
+			r.HarnessError("%v", err)
+			return
+		}
+		ps := append(append([]*vPos{}, cat.Scalars...), cat.Keys...)
+		run := func(what, content string) {
+			if only != "" && only != what {
+				return
+			}
+			*idx++
+			if only == "" && !r.Mine(*idx) {
+				return
+			}
+			if err := os.WriteFile(filepath.Join(root, f), []byte(content), 0o644); err != nil {
+				t.Fatal(err)
+			}
+			proj, err := NewProject(root)
+			if err != nil {
+				r.HarnessError("%v", err)
+				return
+			}
+			r.Begin(func() string { return what })
+			c16CheckRenderAt(r, what, mainPath, mainSrc, proj, map[string]any{"what": what, "src": content, "project_file": f})
+		}
+		for _, pl := range c16Payloads {
+			forms := []string{`"` + pl.yaml + `"`, `["` + pl.yaml + `"]`, `{"` + pl.yaml + `": 1}`}
+			for i, p := range ps {
+				for fi, form := range forms {
+					if p.IsKey && fi > 0 {
+						continue
+					}
+					run(fmt.Sprintf("project %s position %s (key=%v) payload %s form %d", f, p.Path, p.IsKey, pl.name, fi), cat.Replace(p, form))
+				}
+				if p.IsKey {
+					continue
+				}
+				// a second value of the wrong type further down in the same file
+				for _, q := range ps[i+1:] {
+					if q.IsKey || q.Line == p.Line {
+						continue
+					}
+					two := cat.Replace(q, forms[1])
+					lines := strings.Split(two, "\n")
+					l := lines[p.Line-1]
+					lines[p.Line-1] = l[:p.Col-1] + forms[1] + l[p.Col-1+p.Len:]
+					run(fmt.Sprintf("project %s positions %s + %s payload %s", f, p.Path, q.Path, pl.name), strings.Join(lines, "\n"))
+				}
+			}
+		}
+		os.WriteFile(filepath.Join(root, f), []byte(c16ProjFiles[f]), 0o644)
+	}
+}
+
+// c16CaretTemplates: a diagnosed token («») written after other text (§) on the same line.
+var c16CaretTemplates = []struct{ name, line, tok string }{
+	{"flow-step-unknown-key", "      - {name: §, «foo»: 1, run: echo}", "foo"},
+	{"flow-step-shell-value", "      - {name: §, run: echo, shell: «nosuchshell»}", "nosuchshell"},
+	{"flow-step-expression", "      - {name: §, run: 'echo ${{ «nosuchvar» }}'}", "nosuchvar"},
+	{"flow-step-bad-id", "      - {name: §, run: echo, id: «1bad»}", "1bad"},
+	{"plain-then-expression", "      - run: echo § ${{ «nosuchvar» }}", "nosuchvar"},
+	{"plain-then-second-placeholder", "      - run: echo ${{ github.sha }} § ${{ «nosuchvar» }}", "nosuchvar"},
+}
+
+// c16Caret: end to end, the caret of the snippet stands under the diagnosed token, whatever is
+// written before it on the line (ASCII, two-byte, double-width text).
+func c16Caret(r *vReport) {
+	for _, tp := range c16CaretTemplates {
+		for _, pl := range []struct{ name, text string }{{"ascii", "aaaaa"}, {"latin", "ééééé"}, {"wide", "あああ"}, {"mixed", "aéあ"}} {
+			line := strings.ReplaceAll(tp.line, "§", pl.text)
+			k := strings.Index(line, "«")
+			prefix := line[:k]
+			line = strings.NewReplacer("«", "", "»", "").Replace(line)
+			src := "on: push\njobs:\n  a:\n    runs-on: ubuntu-latest\n    steps:\n" + line + "\n"
+			what := fmt.Sprintf("caret template %s payload %s", tp.name, pl.name)
+			replay := map[string]any{"src": src, "what": what}
+			var out bytes.Buffer
+			l, err := NewLinter(&out, &LinterOptions{WorkingDir: "/", Color: ColorOptionKindNever})
+			if err != nil {
+				r.HarnessError("%v", err)
+				return
+			}
+			errs, err := l.Lint("test.yaml", []byte(src), nil)
+			r.Evaluations++
+			r.Transitions++
+			r.Validated++
+			if err != nil {
+				r.Violation("render-error:caret", fmt.Sprintf("%s: %v", what, err), replay)
+				continue
+			}
+			var hit *Error
+			for _, e := range errs {
+				if e.Line == 6 && strings.Contains(e.Message, tp.tok) {
+					hit = e
+				}
+			}
+			if hit == nil {
+				r.HarnessError("%s: no diagnostic about %q on line 6: %v", what, tp.tok, vDiagStrings(errs))
+				continue
+			}
+			lines := strings.Split(out.String(), "\n")
+			w, _ := c16Width(prefix)
+			found := false
+			for i, ol := range lines {
+				if strings.HasPrefix(ol, fmt.Sprintf("test.yaml:%d:%d: ", hit.Line, hit.Column)) && strings.Contains(ol, tp.tok) && i+3 < len(lines) {
+					found = true
+					caret := lines[i+3]
+					got := strings.Index(caret, "^") - len("  | ")
+					if !strings.HasPrefix(caret, "  | ") || got != w {
+						key := fmt.Sprintf("snippet-caret-displaced:%s:after-%s-text:%+d", tp.name, pl.name, got-w)
+						if pl.name != "ascii" && hit.Column == 1+utf8.RuneCountInString(prefix) && got < w {
+							// one cause: the reported column counts characters (as the YAML parser does),
+							// the caret is placed by bytes
+							key = "snippet-caret-displaced:column-in-characters-caret-by-bytes"
+						}
+						r.Violation(key, fmt.Sprintf("%s: the caret stands %d cells after the margin, the token %q starts after %d cells\n%s\n%s\n%s", what, got, tp.tok, w, ol, lines[i+2], caret), replay)
+					}
+				}
+			}
+			if !found {
+				r.Violation("snippet-missing:caret", fmt.Sprintf("%s: no snippet for the diagnostic about %q", what, tp.tok), replay)
+			}
+			r.Class("caret:"+tp.name, true)
+		}
+	}
 }
 
 // c16MultiFile lints every ordering of three workflow files (names chosen so that argument order,
